@@ -56,7 +56,7 @@ def _load_external(modname, path):
 
 _SAVED = ("transport_plan", "initialize_graph_structures", "network_simplex_core", "chunked_pairwise_distance",
           "lot_vectors_sparse_internal", "lot_vectors_dense_internal", "normalize", "randomized_svd", "svd_flip", "str_to_bytes",
-          "named_distances")
+          "named_distances", "l2_normalize", "project_to_sphere_tangent_space", "tangent_vectors_scales", "cosine", "np")
 
 
 def LOT():
